@@ -654,7 +654,15 @@ static void execute(uint32_t base, uint32_t nsteps)
 	for (int i = 0; i < nf; i++) {
 		tf[i] = sim_alloc(sizeof(tf_t));
 		tf[i]->id = i;
-		fibre_init(&tf[i]->fibre, fibre_body);
+		if (i & 1) {
+			/* the static initialiser describes the same fibre as fibre_init() */
+			fibre_t init = FIBRE_VAR_INIT(fibre_body);
+			memset(&tf[i]->fibre, 0xa5, sizeof(fibre_t));
+			tf[i]->fibre = init;
+		} else {
+			memset(&tf[i]->fibre, 0x5a, sizeof(fibre_t));	/* fibre_init must not depend on prior contents */
+			fibre_init(&tf[i]->fibre, fibre_body);
+		}
 		M.fresh[i] = true;
 	}
 	MS[0] = M;
